@@ -11,6 +11,7 @@
      encoding-read xDATA (charset)   -> (ok (g0..g255) endpos) | err
      fdselect-enc (fd ...)       -> xBYTES
      fdselect-read nGlyphs nPrivate xDATA -> (ok (fd ...) endpos) | err | panic
+     charset-predef id nGlyphs   -> (ok (sid ...)) | err
      real-layout neg (d1..dm) l  -> xBYTES   (nibble coding of +-0.d1..dm * 10^l)
      layout seed style (sections) -> (ok (offs ...) hdrOffSize) | fuel
         section = (f n) | (l n) | (d base (ops)) | (i ((base (ops)) ...)),  op = (o j) | (x a b) | (z j)
@@ -97,6 +98,8 @@ let () = main_loop (fun c ->
     outc (fun (offs, _) -> L [A "ok"; L (List.map az offs); an (hdr_offsize secs offs)]) (m_layout secs)
   | [A "width"; def; nom; w] ->
     az (m_width_decode (sx_z def) (sx_z nom) (m_width_encode (sx_z def) (sx_z nom) (sx_z w)))
+  | [A "charset-predef"; id; n] ->
+    outc (fun l -> L [A "ok"; L (List.map an l)]) (m_predefined_charset (sx_n id) (sx_n n))
   | [A "real-layout"; neg; digits; l] ->
     hexa (m_real_layout (sx_bool neg) (List.map sx_n (lst digits)) (sx_z l))
   | _ -> failwith "bad case")
